@@ -20,15 +20,22 @@
 static void fwait(volatile int *a, int v) { while (__atomic_load_n(a, __ATOMIC_ACQUIRE) == v) syscall(SYS_futex, a, FUTEX_WAIT, v, NULL, NULL, 0); }
 static void fwake(volatile int *a) { syscall(SYS_futex, a, FUTEX_WAKE, 1, NULL, NULL, 0); }
 
-struct th { volatile int go; volatile int start; volatile int state; /* 1 ready 2 done */ int waitkind; void *waitm; int spins; int id; int hb_end; pthread_t pt; };
+struct th { volatile int go; volatile int start; volatile int state; /* 1 ready 2 done */ int waitkind; void *waitm; int spins; int id; int hb_end; pthread_t pt; int in_timeout, timedout; long to_calls; };
 static struct th *T; static int NT;   /* the thread pool; a pool with threads abandoned by a stuck execution is replaced by a fresh one */ static volatile int sched_go; static volatile int active; static __thread int me = -1;
-static struct { void *m; int owner; int depth; } MT[16]; static int nmt;
+static volatile struct { void *m; int owner; int depth; } MT[16]; static volatile int nmt;   /* volatile: read again after every hand-off */
 static int mt(void *m) { for (int i = 0; i < nmt; i++) if (MT[i].m == m) return i; if (nmt >= 16) abort(); MT[nmt].m = m; MT[nmt].owner = -1; MT[nmt].depth = 0; return nmt++; }
 
 int sc_choice[SC_MAXP], sc_nen[SC_MAXP], sc_cur_en[SC_MAXP], sc_who[SC_MAXP], sc_np;
 int sc_prefix[SC_MAXP], sc_nprefix;
 int sc_deadlock, sc_livelock, sc_overflow, sc_diverged;
-int sc_force_timeout_at = -1;     /* deviation: the n-th contended acquisition sees EBUSY until the library's wait gives up */
+/* Deviation "the wait for the lock times out" (sc_to_budget > 0): real time is replaced by a bounded environment deviation. With it
+ * switched on there is a scheduling point right after every outermost acquisition, so that another thread can arrive while the
+ * mutex is held; at most sc_to_budget times per execution a thread waiting for a held mutex may be scheduled all the same: its trylock
+ * calls then get the real answer (EBUSY) without any further scheduling point until the library's wait loop gives up and runs its
+ * stall breaker (Q_MUTEX_ENTER: 5000 failed attempts, then a forced Q_MUTEX_LEAVE) - the real macro code runs, nothing is faked.
+ * After the forced unlock the thread waits again. */
+int sc_to_budget; int sc_foreign_unlock, sc_timeouts;
+static volatile int to_left;
 static int clk;
 int sc_clock(void) { return ++clk; }
 int sc_self(void) { return me; }
@@ -37,7 +44,7 @@ int sc_lock_owner(void *m) { for (int i = 0; i < nmt; i++) if (MT[i].m == m) ret
 
 static int enabled(int t) {
     if (T[t].state != 1) return 0;
-    if (T[t].waitkind == 1) { int i = mt(T[t].waitm); return MT[i].owner == -1 || MT[i].owner == t; }
+    if (T[t].waitkind == 1) { int i = mt(T[t].waitm); return MT[i].owner == -1 || MT[i].owner == t || (to_left > 0 && !T[t].timedout); }
     return 1;
 }
 static void yield_to_sched(void) { T[me].go = 0; __atomic_store_n(&sched_go, 1, __ATOMIC_RELEASE); fwake(&sched_go); fwait(&T[me].go, 0); }
@@ -47,22 +54,41 @@ int __real_pthread_mutex_trylock(pthread_mutex_t *); int __real_pthread_mutex_un
 int __wrap_pthread_mutex_trylock(pthread_mutex_t *m) {
     if (!active || me < 0) return __real_pthread_mutex_trylock(m);
     int i = mt(m);
-    if (MT[i].owner != me) sc_point(1, m);
+    if (T[me].in_timeout) {     /* inside the library's wait loop of a timed-out acquisition: real answers, no scheduling points */
+        int r = __real_pthread_mutex_trylock(m);
+        if (r == 0) { T[me].in_timeout = 0; MT[i].owner = me; MT[i].depth++; return 0; }
+        if (++T[me].to_calls > 200000) { sc_livelock = 1; T[me].waitkind = 9; yield_to_sched(); }   /* the wait never gives up: parked for good */
+        return r;
+    }
+    if (MT[i].owner != me) {
+        sc_point(1, m);
+        if (MT[i].owner != -1 && MT[i].owner != me) {   /* scheduled although the mutex is held: the time-out deviation */
+            to_left--; sc_timeouts++; T[me].in_timeout = 1; T[me].timedout = 1; T[me].to_calls = 1;
+            return __real_pthread_mutex_trylock(m);
+        }
+    }
     int r = __real_pthread_mutex_trylock(m);
     if (r != 0) { sc_diverged = 1; return r; }     /* cannot happen: we are only scheduled when the mutex is free */
-    MT[i].owner = me; MT[i].depth++; T[me].spins = 0;
+    MT[i].owner = me; MT[i].depth++; T[me].spins = 0; T[me].timedout = 0;
+    if (sc_to_budget > 0 && MT[i].depth == 1) sc_point(4, m);    /* holding: another thread may arrive now */
     return 0;
 }
 int __wrap_pthread_mutex_unlock(pthread_mutex_t *m) {
     if (!active || me < 0) return __real_pthread_mutex_unlock(m);
     int i = mt(m);
     int r = __real_pthread_mutex_unlock(m);
+    if (T[me].in_timeout && MT[i].owner != me) {    /* the stall breaker's forced unlock of a mutex this thread does not hold */
+        T[me].in_timeout = 0;
+        if (r == 0) { sc_foreign_unlock = 1; MT[i].owner = -1; MT[i].depth = 0; }   /* it really took the mutex away from its owner */
+        return r;
+    }
     if (r == 0 && MT[i].owner == me) { if (--MT[i].depth == 0) { MT[i].owner = -1; sc_point(2, m); } }
     return r;
 }
 int __wrap_usleep(unsigned us) {
     (void)us;
     if (!active || me < 0) return 0;
+    if (T[me].in_timeout) return 0;
     if (++T[me].spins > 64) { sc_livelock = 1; T[me].waitkind = 9; yield_to_sched(); }   /* parked for good */
     sc_point(3, 0);
     return 0;
@@ -92,7 +118,7 @@ static void *pool_main(void *a) {
 long sc_pools_created;
 /* one execution: follow sc_prefix, then always choice 0 (running thread first if still enabled, then ascending ids) */
 void sc_run(int nt, void (*b)(int)) {
-    NT = nt; nmt = 0; sc_np = 0; sc_deadlock = sc_livelock = sc_overflow = sc_diverged = 0; clk = 0; body = b;
+    NT = nt; nmt = 0; sc_np = 0; sc_deadlock = sc_livelock = sc_overflow = sc_diverged = 0; clk = 0; body = b; to_left = sc_to_budget; sc_foreign_unlock = 0;
     if (!T) {   /* (re)create the pool; a pool with threads parked by a stuck execution is abandoned */
         T = calloc(SC_MAXT, sizeof *T); sc_pools_created++;
         pthread_attr_t at; pthread_attr_init(&at); pthread_attr_setstacksize(&at, 256 * 1024);
@@ -100,7 +126,7 @@ void sc_run(int nt, void (*b)(int)) {
         pthread_attr_destroy(&at);
     }
     active = 1;
-    for (int i = 0; i < nt; i++) { T[i].go = 0; T[i].state = 1; T[i].waitkind = 0; T[i].spins = 0; }
+    for (int i = 0; i < nt; i++) { T[i].go = 0; T[i].state = 1; T[i].waitkind = 0; T[i].spins = 0; T[i].in_timeout = T[i].timedout = 0; }
     if (__tsan_release) __tsan_release(&hb_start);
     for (int i = 0; i < nt; i++) { __atomic_store_n(&T[i].start, 1, __ATOMIC_RELEASE); fwake(&T[i].start); }
     int cur = -1;
